@@ -195,10 +195,10 @@ def diffusionTermPolar2D(D: FaceVariable) -> csr_array:
                             * DY[1:Ny+1][np.newaxis, :])
 
     # calculate the coefficients for the internal cells
-    AE = De #.ravel()
-    AW = Dw #.ravel()
-    AN = Dn #.ravel()
-    AS = Ds #.ravel()
+    AE = De.ravel()
+    AW = Dw.ravel()
+    AN = Dn.ravel()
+    AS = Ds.ravel()
     APx = -(AE+AW)
     APy = -(AN+AS)
 
